@@ -1,8 +1,1234 @@
-//! C12 — not implemented yet
-use vcore::{Args, Check};
+//! C12 — The database digest depends only on the immutable files up to the beacon.
+//!
+//! A *canonical database* (immutable trios `first..first+n`, contents given as (seed, len) pairs) is written to disk in
+//! two or three *materialisations* that differ in creation order, in which directory is handed to the digester, in
+//! extra files (non-immutable names inside `immutable/`, look-alikes in sub-directories and beside it, trios beyond the
+//! beacon, edits of files beyond the beacon) and in the digest-cache history (none / memory / JSON file; cold, warm
+//! from the same / a longer / a shorter run, partially filled, entries for vanished names, corrupt file, database
+//! grown between runs). Every computation — the history ones and the final one — is compared with a harness-side
+//! restatement (own extension filter, own (number, name) order, SHA-256 per file, own Merkle-mountain-range root over the
+//! ASCII hex digests with Blake2s-256), and the final results are compared across materialisations.
+//! A second section perturbs one file of a cache-less database (flip / truncate / append / delete / rename / overwrite /
+//! swap; covered or not covered by the beacon) and checks that the root changes exactly when the covered
+//! (name → content) map changed.
+
+use std::collections::{BTreeMap, BTreeSet};
+use std::path::{Path, PathBuf};
+use std::sync::Arc;
+
+use blake2::Blake2s256;
+use mithril_cardano_node_internal_database::digesters::cache::{
+    ImmutableFileDigestCacheProvider, JsonImmutableFileDigestCacheProvider, MemoryImmutableFileDigestCacheProvider,
+};
+use mithril_cardano_node_internal_database::digesters::{
+    CardanoImmutableDigester, ImmutableDigester, ImmutableDigesterError,
+};
+use mithril_cardano_node_internal_database::signable_builder::CardanoDatabaseSignableBuilder;
+use mithril_common::entities::{CardanoDbBeacon, ProtocolMessagePartKey};
+use mithril_common::signable_builder::SignableBuilder;
+use proptest::prelude::*;
+use serde::{Deserialize, Serialize};
+use sha2::{Digest, Sha256};
+use vcore::util::Scratch;
+use vcore::{Args, Check, Report, pick_index};
+
+// ---------------------------------------------------------------------------------------------------------------
+// helpers shared with c10.rs
+// ---------------------------------------------------------------------------------------------------------------
+
+pub(crate) const EXTS: [&str; 3] = ["chunk", "primary", "secondary"];
+
+/// File content given intensionally, so that replay files stay small even for large files.
+#[derive(Clone, Debug, Serialize, Deserialize, PartialEq, Eq, PartialOrd, Ord)]
+pub(crate) struct Content {
+    pub seed: u64,
+    pub len: u32,
+}
+
+impl Content {
+    /// deterministic byte stream of `seed` (equal seeds: one content is a prefix of the other)
+    pub fn bytes(&self) -> Vec<u8> {
+        let mut out = Vec::with_capacity(self.len as usize + 8);
+        let mut s = self.seed ^ 0x5851_f42d_4c95_7f2d;
+        while out.len() < self.len as usize {
+            s = s.wrapping_add(0x9E37_79B9_7F4A_7C15);
+            let mut z = s;
+            z = (z ^ (z >> 30)).wrapping_mul(0xBF58_476D_1CE4_E5B9);
+            z = (z ^ (z >> 27)).wrapping_mul(0x94D0_49BB_1331_11EB);
+            z ^= z >> 31;
+            out.extend_from_slice(&z.to_le_bytes());
+        }
+        out.truncate(self.len as usize);
+        out
+    }
+}
+
+pub(crate) fn content_strategy() -> impl Strategy<Value = Content> {
+    let seed = prop_oneof![3 => 0u64..6, 2 => any::<u64>()];
+    let len = prop_oneof![
+        3 => Just(0u32),
+        24 => 0u32..=200,
+        6 => prop_oneof![Just(1u32), Just(7u32), Just(64u32)],
+        1 => 4090u32..4100,
+        1 => 8185u32..8200,
+        1 => 65530u32..65545,
+        1 => 131070u32..140000,
+    ];
+    (seed, len).prop_map(|(seed, len)| Content { seed, len })
+}
+
+/// small contents only (for databases where many files are rewritten per case)
+pub(crate) fn small_content_strategy() -> impl Strategy<Value = Content> {
+    let seed = prop_oneof![3 => 0u64..6, 2 => any::<u64>()];
+    let len = prop_oneof![2 => Just(0u32), 22 => 0u32..=200, 8 => prop_oneof![Just(1u32), Just(7u32), Just(64u32)], 1 => 8185u32..8200];
+    (seed, len).prop_map(|(seed, len)| Content { seed, len })
+}
+
+pub(crate) fn sha256_hex(b: &[u8]) -> String {
+    hex::encode(Sha256::digest(b))
+}
+
+fn blake2s(l: &[u8], r: &[u8]) -> Vec<u8> {
+    let mut h = Blake2s256::new();
+    h.update(l);
+    h.update(r);
+    h.finalize().to_vec()
+}
+
+fn perfect(leaves: &[Vec<u8>]) -> Vec<u8> {
+    if leaves.len() == 1 {
+        return leaves[0].clone();
+    }
+    let (l, r) = leaves.split_at(leaves.len() / 2);
+    blake2s(&perfect(l), &perfect(r))
+}
+
+/// Root of the Merkle mountain range over `leaves` (the ASCII bytes of each string), restated from the MMR
+/// definition: perfect binary trees for every 1-bit of the leaf count (largest first), peaks bagged from the right with
+/// H(right ‖ left); a single leaf is its own root. Returned as hex. `None` for no leaves.
+pub(crate) fn mmr_root_hex<S: AsRef<str>>(leaves: &[S]) -> Option<String> {
+    if leaves.is_empty() {
+        return None;
+    }
+    let raw: Vec<Vec<u8>> = leaves.iter().map(|s| s.as_ref().as_bytes().to_vec()).collect();
+    let n = raw.len();
+    let mut peaks = vec![];
+    let mut off = 0usize;
+    for bit in (0..usize::BITS).rev() {
+        let size = 1usize << bit;
+        if n & size != 0 {
+            peaks.push(perfect(&raw[off..off + size]));
+            off += size;
+        }
+    }
+    while peaks.len() > 1 {
+        let right = peaks.pop().unwrap();
+        let left = peaks.pop().unwrap();
+        peaks.push(blake2s(&right, &left));
+    }
+    Some(hex::encode(peaks.pop().unwrap()))
+}
+
+/// golden vector of the repository's merkle tree tests + structural spot checks
+pub(crate) fn mmr_self_test() -> Result<(), String> {
+    let g = mmr_root_hex(&["golden-1", "golden-2", "golden-3", "golden-4", "golden-5"]).unwrap();
+    if g != "3bbced153528697ecde7345a22e50115306478353619411523e804f2323fd921" {
+        return Err(format!("harness MMR does not reproduce the golden root: {g}"));
+    }
+    if mmr_root_hex(&["ab"]).unwrap() != hex::encode("ab") {
+        return Err("single leaf root".into());
+    }
+    Ok(())
+}
+
+/// own parse of an immutable file name: `<decimal>.<chunk|primary|secondary>`; None = not an immutable file.
+/// (names with an immutable extension and a non-numeric stem are outside the domain and never generated)
+pub(crate) fn parse_immutable_name(name: &str) -> Option<(u64, &str)> {
+    let (stem, ext) = name.rsplit_once('.')?;
+    if stem.is_empty() || !EXTS.contains(&ext) || !stem.bytes().all(|b| b.is_ascii_digit()) {
+        return None;
+    }
+    stem.parse::<u64>().ok().map(|n| (n, ext))
+}
+
+pub(crate) fn canonical_name(number: u64, ext: usize) -> String {
+    format!("{number:05}.{}", EXTS[ext])
+}
+
+pub(crate) fn discard_logger() -> slog::Logger {
+    slog::Logger::root(slog::Discard, slog::o!())
+}
+
+pub(crate) type Model = BTreeMap<String, Vec<u8>>;
+
+/// (number, name, sha256 hex) of the immutable files selected by `pred`, in (number, name) order
+pub(crate) fn ref_entries(model: &Model, pred: impl Fn(u64) -> bool) -> Vec<(u64, String, String)> {
+    let mut v: Vec<(u64, String, String)> = model
+        .iter()
+        .filter_map(|(name, bytes)| {
+            let (n, _) = parse_immutable_name(name)?;
+            pred(n).then(|| (n, name.clone(), sha256_hex(bytes)))
+        })
+        .collect();
+    v.sort_by(|a, b| (a.0, &a.1).cmp(&(b.0, &b.1)));
+    v
+}
+
+#[derive(Clone, Debug, PartialEq, Eq)]
+pub(crate) enum Outcome {
+    Root(String),
+    NotEnough,
+    Other(String),
+}
+
+/// the statement, restated: root over the files numbered <= beacon; the beacon's own number must be present
+pub(crate) fn ref_root(model: &Model, beacon: u64) -> Outcome {
+    let e = ref_entries(model, |n| n <= beacon);
+    match e.last() {
+        None => Outcome::NotEnough,
+        Some(l) if l.0 < beacon => Outcome::NotEnough,
+        Some(_) => {
+            let leaves: Vec<&str> = e.iter().map(|x| x.2.as_str()).collect();
+            Outcome::Root(mmr_root_hex(&leaves).unwrap())
+        }
+    }
+}
+
+pub(crate) fn new_runtime() -> tokio::runtime::Runtime {
+    tokio::runtime::Builder::new_current_thread().enable_all().build().expect("tokio runtime")
+}
+
+pub(crate) fn cut_root(
+    rt: &tokio::runtime::Runtime,
+    digester: &CardanoImmutableDigester,
+    dir: &Path,
+    beacon: u64,
+) -> Outcome {
+    match rt.block_on(digester.compute_merkle_tree(dir, &CardanoDbBeacon::new(1, beacon))) {
+        Ok(tree) => match tree.compute_root() {
+            Ok(r) => Outcome::Root(r.to_hex()),
+            Err(e) => Outcome::Other(format!("compute_root: {e:?}")),
+        },
+        Err(ImmutableDigesterError::NotEnoughImmutable { .. }) => Outcome::NotEnough,
+        Err(e) => Outcome::Other(format!("{e:?}")),
+    }
+}
+
+pub(crate) fn splitmix(s: &mut u64) -> u64 {
+    *s = s.wrapping_add(0x9E37_79B9_7F4A_7C15);
+    let mut z = *s;
+    z = (z ^ (z >> 30)).wrapping_mul(0xBF58_476D_1CE4_E5B9);
+    z = (z ^ (z >> 27)).wrapping_mul(0x94D0_49BB_1331_11EB);
+    z ^ (z >> 31)
+}
+
+pub(crate) fn shuffle<T>(v: &mut [T], seed: u64) {
+    let mut s = seed;
+    for i in (1..v.len()).rev() {
+        let j = (splitmix(&mut s) % (i as u64 + 1)) as usize;
+        v.swap(i, j);
+    }
+}
+
+// ---------------------------------------------------------------------------------------------------------------
+// case description
+// ---------------------------------------------------------------------------------------------------------------
+
+#[derive(Clone, Debug, Serialize, Deserialize)]
+pub(crate) struct DbSpec {
+    /// number of the first trio
+    pub first: u64,
+    /// trio i has number first + i; [chunk, primary, secondary]
+    pub trios: Vec<[Content; 3]>,
+}
+
+impl DbSpec {
+    pub fn last(&self) -> u64 {
+        self.first + self.trios.len() as u64 - 1
+    }
+    pub fn files(&self) -> Vec<(String, Content)> {
+        let mut v = vec![];
+        for (i, t) in self.trios.iter().enumerate() {
+            for (e, c) in t.iter().enumerate() {
+                v.push((canonical_name(self.first + i as u64, e), c.clone()));
+            }
+        }
+        v
+    }
+}
+
+pub(crate) fn db_strategy(max_trios: usize, small: bool) -> impl Strategy<Value = DbSpec> {
+    let trio = if small {
+        prop::array::uniform3(small_content_strategy()).boxed()
+    } else {
+        prop::array::uniform3(content_strategy()).boxed()
+    };
+    (prop::collection::vec(trio, 1..=max_trios), prop_oneof![3 => Just(0u8), 2 => Just(1u8), 3 => Just(2u8)], any::<u16>())
+        .prop_map(|(trios, kind, raw)| {
+            let n = trios.len();
+            let first = match kind {
+                0 => 0,
+                1 => 1 + pick_index(raw, 30) as u64,
+                // straddle the 99999 -> 100000 boundary where the name order and the number order differ
+                _ => 100_000 - (1 + pick_index(raw, n)) as u64,
+            };
+            DbSpec { first, trios }
+        })
+}
+
+#[derive(Clone, Debug, Serialize, Deserialize)]
+enum Order {
+    Forward,
+    Reverse,
+    ByExtension,
+    Shuffled(u64),
+}
+
+#[derive(Clone, Debug, Serialize, Deserialize)]
+enum PassDir {
+    DbDir,
+    ImmutableDir,
+    GrandParent,
+}
+
+const IN_IMMUTABLE_NAMES: [&str; 12] = [
+    "README",
+    "00001.chunk.bak",
+    "00001.tmp",
+    "00002.primary~",
+    "clean",
+    ".DS_Store",
+    "00003",
+    "chunk",
+    "00001.CHUNK",
+    "00001.chunks",
+    ".chunk",
+    "99999.secondary.part",
+];
+
+#[derive(Clone, Debug, Serialize, Deserialize)]
+enum Extra {
+    /// a regular file inside immutable/ whose name is not an immutable file name
+    InImmutable { name: u8, content: Content },
+    /// immutable/<sub>/<canonical-looking name> (must be ignored: depth 2)
+    SubdirLookalike { trio: u16, content: Content },
+    /// things beside immutable/: 0 ledger+volatile, 1 protocolMagicId, 2 a *file* named `immutable` inside ledger/,
+    /// 3 `immutable.bak/` with look-alikes, 4 a look-alike at the db root, 5 `immutables/` + `Immutable/` directories
+    Beside { kind: u8, content: Content },
+    /// a (partial) trio beyond the last canonical one: number = last + off, files per mask
+    Beyond { off: u8, mask: u8, content: Content },
+}
+
+#[derive(Clone, Debug, Serialize, Deserialize)]
+enum BeyondEdit {
+    /// delete / rewrite a canonical file whose number is > the final beacon (index among those files)
+    Delete { file: u16 },
+    Rewrite { file: u16, content: Content },
+}
+
+#[derive(Clone, Debug, Serialize, Deserialize)]
+enum CacheSpec {
+    None,
+    Memory,
+    /// JSON file: 0 absent, 1 `{}`, 2 corrupt
+    Json { initial: u8 },
+}
+
+#[derive(Clone, Debug, Serialize, Deserialize)]
+enum PreOp {
+    /// make at least `grow` trios visible, then compute at a beacon among the visible ones (`beyond`: one past them)
+    Compute { grow: u16, beacon: u16, beyond: bool },
+    /// store the correct digests of a subset of the visible immutable files (partially filled cache)
+    Fill { mask: u64 },
+    /// store entries for names that do not exist on disk
+    StaleNames { n: u8 },
+}
+
+#[derive(Clone, Debug, Serialize, Deserialize)]
+struct Mat {
+    order: Order,
+    pass: PassDir,
+    extras: Vec<Extra>,
+    beyond_edits: Vec<BeyondEdit>,
+    cache: CacheSpec,
+    /// trios visible before the first history operation (raw index)
+    initial_visible: u16,
+    ops: Vec<PreOp>,
+}
+
+#[derive(Clone, Debug, Serialize, Deserialize)]
+struct HistCase {
+    db: DbSpec,
+    final_beacon: u16,
+    mats: Vec<Mat>,
+}
+
+#[derive(Clone, Debug, Serialize, Deserialize)]
+enum Pert {
+    Flip { file: u16, pos: u16, xor: u8 },
+    Truncate { file: u16, newlen: u16 },
+    Append { file: u16, extra: Vec<u8> },
+    Delete { file: u16 },
+    /// rename to a non-immutable name (0), to a number beyond the beacon (1)
+    RenameOut { file: u16, kind: u8 },
+    /// rename a covered file over another covered file
+    RenameOver { file: u16, onto: u16 },
+    SwapContents { a: u16, b: u16 },
+    ReplaceFresh { file: u16, content: Content },
+    /// every file carrying the beacon's own number disappears (the documented NotEnoughImmutable case)
+    DeleteBeaconTrio,
+    // ---- perturbations of files NOT covered by the beacon: the root must not move
+    UncoveredFlip { file: u16, pos: u16, xor: u8 },
+    UncoveredDelete { file: u16 },
+    UncoveredAdd { extra: Extra },
+}
+
+#[derive(Clone, Debug, Serialize, Deserialize)]
+struct PertCase {
+    db: DbSpec,
+    beacon: u16,
+    order: Order,
+    pass: PassDir,
+    extras: Vec<Extra>,
+    pert: Pert,
+}
+
+// ---------------------------------------------------------------------------------------------------------------
+// strategies
+// ---------------------------------------------------------------------------------------------------------------
+
+fn order_strategy() -> impl Strategy<Value = Order> {
+    prop_oneof![
+        Just(Order::Forward),
+        Just(Order::Reverse),
+        Just(Order::ByExtension),
+        any::<u64>().prop_map(Order::Shuffled),
+    ]
+}
+
+fn pass_strategy() -> impl Strategy<Value = PassDir> {
+    prop_oneof![3 => Just(PassDir::DbDir), 2 => Just(PassDir::ImmutableDir), 1 => Just(PassDir::GrandParent)]
+}
+
+fn extra_strategy() -> impl Strategy<Value = Extra> {
+    let c = small_content_strategy;
+    prop_oneof![
+        3 => (0u8..IN_IMMUTABLE_NAMES.len() as u8, c()).prop_map(|(name, content)| Extra::InImmutable { name, content }),
+        1 => (any::<u16>(), c()).prop_map(|(trio, content)| Extra::SubdirLookalike { trio, content }),
+        2 => (0u8..6, c()).prop_map(|(kind, content)| Extra::Beside { kind, content }),
+        3 => (1u8..=12, 1u8..8, c()).prop_map(|(off, mask, content)| Extra::Beyond { off, mask, content }),
+    ]
+}
+
+fn mat_strategy() -> impl Strategy<Value = Mat> {
+    let beyond_edit = prop_oneof![
+        any::<u16>().prop_map(|file| BeyondEdit::Delete { file }),
+        (any::<u16>(), small_content_strategy()).prop_map(|(file, content)| BeyondEdit::Rewrite { file, content }),
+    ];
+    let cache = prop_oneof![
+        2 => Just(CacheSpec::None),
+        4 => Just(CacheSpec::Memory),
+        5 => prop_oneof![4 => Just(0u8), 1 => Just(1u8), 1 => Just(2u8)].prop_map(|initial| CacheSpec::Json { initial }),
+    ];
+    let op = prop_oneof![
+        6 => (any::<u16>(), prop_oneof![2 => Just(u16::MAX), 3 => any::<u16>()], prop::bool::weighted(0.06))
+            .prop_map(|(grow, beacon, beyond)| PreOp::Compute { grow, beacon, beyond }),
+        2 => any::<u64>().prop_map(|mask| PreOp::Fill { mask }),
+        1 => (1u8..5).prop_map(|n| PreOp::StaleNames { n }),
+    ];
+    (
+        order_strategy(),
+        pass_strategy(),
+        prop::collection::vec(extra_strategy(), 0..4),
+        prop::collection::vec(beyond_edit, 0..3),
+        cache,
+        prop_oneof![2 => Just(u16::MAX), 1 => any::<u16>()],
+        prop::collection::vec(op, 0..5),
+    )
+        .prop_map(|(order, pass, extras, beyond_edits, cache, initial_visible, ops)| Mat {
+            order,
+            pass,
+            extras,
+            beyond_edits,
+            cache,
+            initial_visible,
+            ops,
+        })
+}
+
+fn hist_strategy() -> impl Strategy<Value = HistCase> {
+    (
+        db_strategy(10, false),
+        prop_oneof![2 => Just(u16::MAX), 3 => any::<u16>()],
+        prop::collection::vec(mat_strategy(), 2..=3),
+    )
+        .prop_map(|(db, final_beacon, mats)| HistCase { db, final_beacon, mats })
+}
+
+fn pert_strategy() -> impl Strategy<Value = PertCase> {
+    let f = any::<u16>;
+    let p = || prop_oneof![1 => Just(u16::MAX), 4 => any::<u16>()];
+    let pert = prop_oneof![
+        1 => Just(Pert::DeleteBeaconTrio),
+        4 => (f(), p(), 1u8..=255).prop_map(|(file, pos, xor)| Pert::Flip { file, pos, xor }),
+        2 => (f(), p()).prop_map(|(file, newlen)| Pert::Truncate { file, newlen }),
+        2 => (f(), prop::collection::vec(any::<u8>(), 1..4)).prop_map(|(file, extra)| Pert::Append { file, extra }),
+        2 => f().prop_map(|file| Pert::Delete { file }),
+        2 => (f(), 0u8..2).prop_map(|(file, kind)| Pert::RenameOut { file, kind }),
+        2 => (f(), f()).prop_map(|(file, onto)| Pert::RenameOver { file, onto }),
+        2 => (f(), f()).prop_map(|(a, b)| Pert::SwapContents { a, b }),
+        1 => (f(), small_content_strategy()).prop_map(|(file, content)| Pert::ReplaceFresh { file, content }),
+        2 => (f(), f(), 1u8..=255).prop_map(|(file, pos, xor)| Pert::UncoveredFlip { file, pos, xor }),
+        1 => f().prop_map(|file| Pert::UncoveredDelete { file }),
+        2 => extra_strategy().prop_map(|extra| Pert::UncoveredAdd { extra }),
+    ];
+    (
+        db_strategy(8, false),
+        prop_oneof![1 => Just(u16::MAX), 2 => any::<u16>()],
+        order_strategy(),
+        pass_strategy(),
+        prop::collection::vec(extra_strategy(), 0..3),
+        pert,
+    )
+        .prop_map(|(db, beacon, order, pass, extras, pert)| PertCase { db, beacon, order, pass, extras, pert })
+}
+
+// ---------------------------------------------------------------------------------------------------------------
+// materialisation on disk + model
+// ---------------------------------------------------------------------------------------------------------------
+
+struct Disk {
+    /// what is handed to the digester
+    pass_dir: PathBuf,
+    db_dir: PathBuf,
+    imm_dir: PathBuf,
+    /// regular files directly inside immutable/ (name -> bytes): the harness' model of the directory
+    model: Model,
+}
+
+impl Disk {
+    fn new(root: &Path, pass: &PassDir) -> Disk {
+        let db_dir = match pass {
+            PassDir::GrandParent => root.join("node").join("db"),
+            _ => root.join("db"),
+        };
+        let imm_dir = db_dir.join("immutable");
+        std::fs::create_dir_all(&imm_dir).expect("mkdir immutable");
+        let pass_dir = match pass {
+            PassDir::DbDir => db_dir.clone(),
+            PassDir::ImmutableDir => imm_dir.clone(),
+            PassDir::GrandParent => root.to_path_buf(),
+        };
+        Disk { pass_dir, db_dir, imm_dir, model: Model::new() }
+    }
+
+    fn write(&mut self, name: &str, bytes: Vec<u8>) {
+        std::fs::write(self.imm_dir.join(name), &bytes).expect("write immutable file");
+        self.model.insert(name.to_string(), bytes);
+    }
+
+    fn remove(&mut self, name: &str) {
+        std::fs::remove_file(self.imm_dir.join(name)).expect("remove file");
+        self.model.remove(name);
+    }
+
+    fn rename(&mut self, from: &str, to: &str) {
+        std::fs::rename(self.imm_dir.join(from), self.imm_dir.join(to)).expect("rename");
+        let b = self.model.remove(from).expect("model has file");
+        self.model.insert(to.to_string(), b);
+    }
+
+    /// extras that live outside immutable/ or below it (never part of the model)
+    fn write_outside(&self, extra: &Extra, db: &DbSpec) {
+        match extra {
+            Extra::SubdirLookalike { trio, content } => {
+                let d = self.imm_dir.join("backup");
+                std::fs::create_dir_all(&d).unwrap();
+                let n = db.first + pick_index(*trio, db.trios.len()) as u64;
+                for e in 0..3 {
+                    std::fs::write(d.join(canonical_name(n, e)), content.bytes()).unwrap();
+                }
+            }
+            Extra::Beside { kind, content } => {
+                let b = content.bytes();
+                let db_dir = &self.db_dir;
+                match kind % 6 {
+                    0 => {
+                        std::fs::create_dir_all(db_dir.join("ledger")).unwrap();
+                        std::fs::create_dir_all(db_dir.join("volatile")).unwrap();
+                        std::fs::write(db_dir.join("ledger").join("437"), &b).unwrap();
+                        std::fs::write(db_dir.join("volatile").join("blocks-0.dat"), &b).unwrap();
+                    }
+                    1 => std::fs::write(db_dir.join("protocolMagicId"), &b).unwrap(),
+                    2 => {
+                        std::fs::create_dir_all(db_dir.join("ledger")).unwrap();
+                        std::fs::write(db_dir.join("ledger").join("immutable"), &b).unwrap();
+                    }
+                    3 => {
+                        let d = db_dir.join("immutable.bak");
+                        std::fs::create_dir_all(&d).unwrap();
+                        std::fs::write(d.join(canonical_name(db.first, 0)), &b).unwrap();
+                        std::fs::write(d.join(canonical_name(db.last(), 2)), &b).unwrap();
+                    }
+                    4 => std::fs::write(db_dir.join(canonical_name(db.first, 0)), &b).unwrap(),
+                    _ => {
+                        for n in ["immutables", "Immutable"] {
+                            let d = db_dir.join(n);
+                            std::fs::create_dir_all(&d).unwrap();
+                            std::fs::write(d.join(canonical_name(db.first, 1)), &b).unwrap();
+                        }
+                    }
+                }
+            }
+            _ => {}
+        }
+    }
+}
+
+/// the files an extra puts directly inside immutable/
+fn extra_files(extra: &Extra, db: &DbSpec) -> Vec<(String, Vec<u8>)> {
+    match extra {
+        Extra::InImmutable { name, content } => {
+            vec![(IN_IMMUTABLE_NAMES[*name as usize % IN_IMMUTABLE_NAMES.len()].to_string(), content.bytes())]
+        }
+        Extra::Beyond { off, mask, content } => {
+            let n = db.last() + (*off).max(1) as u64;
+            (0..3)
+                .filter(|e| mask & (1 << e) != 0)
+                .map(|e| {
+                    let c = Content { seed: content.seed.wrapping_add(e as u64), len: content.len };
+                    (canonical_name(n, e), c.bytes())
+                })
+                .collect()
+        }
+        _ => vec![],
+    }
+}
+
+fn extra_class(extra: &Extra) -> &'static str {
+    match extra {
+        Extra::InImmutable { .. } => "non-immutable-name",
+        Extra::SubdirLookalike { .. } => "subdir-lookalike",
+        Extra::Beside { .. } => "beside",
+        Extra::Beyond { .. } => "beyond-last",
+    }
+}
+
+fn apply_order(files: &mut Vec<(String, Vec<u8>)>, order: &Order) {
+    files.sort_by(|a, b| a.0.cmp(&b.0));
+    match order {
+        Order::Forward => {}
+        Order::Reverse => files.reverse(),
+        Order::ByExtension => files.sort_by(|a, b| {
+            let ea = a.0.rsplit('.').next().unwrap_or("").to_string();
+            let eb = b.0.rsplit('.').next().unwrap_or("").to_string();
+            (ea, &a.0).cmp(&(eb, &b.0))
+        }),
+        Order::Shuffled(seed) => shuffle(files, *seed),
+    }
+}
+
+fn order_class(o: &Order) -> &'static str {
+    match o {
+        Order::Forward => "forward",
+        Order::Reverse => "reverse",
+        Order::ByExtension => "by-extension",
+        Order::Shuffled(_) => "shuffled",
+    }
+}
+
+fn pass_class(p: &PassDir) -> &'static str {
+    match p {
+        PassDir::DbDir => "db-dir",
+        PassDir::ImmutableDir => "immutable-dir",
+        PassDir::GrandParent => "grand-parent",
+    }
+}
+
+fn db_labels(rep: &mut Report, db: &DbSpec) {
+    if db.first < 100_000 && db.last() >= 100_000 {
+        rep.label("db:crosses-100000");
+    }
+    let files = db.files();
+    if files.iter().any(|(_, c)| c.len == 0) {
+        rep.label("db:empty-file");
+    }
+    if files.iter().any(|(_, c)| c.len > 8192) {
+        rep.label("db:file>8KiB");
+    }
+    if files.iter().any(|(_, c)| c.len > 65536) {
+        rep.label("db:file>64KiB");
+    }
+    let distinct: BTreeSet<(u64, u32)> = files.iter().map(|(_, c)| if c.len == 0 { (0, 0) } else { (c.seed, c.len) }).collect();
+    if distinct.len() < files.len() {
+        rep.label("db:equal-contents");
+    }
+}
+
+// ---------------------------------------------------------------------------------------------------------------
+// section 1: layouts × cache histories
+// ---------------------------------------------------------------------------------------------------------------
+
+struct CacheCtx {
+    spec: CacheSpec,
+    memory: Arc<MemoryImmutableFileDigestCacheProvider>,
+    json_path: PathBuf,
+}
+
+impl CacheCtx {
+    fn new(spec: &CacheSpec, root: &Path) -> CacheCtx {
+        let dir = root.join("cache");
+        std::fs::create_dir_all(&dir).unwrap();
+        let json_path = dir.join("immutables_digests.json");
+        if let CacheSpec::Json { initial } = spec {
+            match initial % 3 {
+                1 => std::fs::write(&json_path, "{}").unwrap(),
+                2 => std::fs::write(&json_path, "{ \"00000.chunk\": ").unwrap(),
+                _ => {}
+            }
+        }
+        CacheCtx { spec: spec.clone(), memory: Arc::new(MemoryImmutableFileDigestCacheProvider::default()), json_path }
+    }
+    /// the provider a freshly started process would use
+    fn provider(&self) -> Option<Arc<dyn ImmutableFileDigestCacheProvider>> {
+        match self.spec {
+            CacheSpec::None => None,
+            CacheSpec::Memory => Some(self.memory.clone()),
+            CacheSpec::Json { .. } => Some(Arc::new(JsonImmutableFileDigestCacheProvider::new(&self.json_path))),
+        }
+    }
+    fn digester(&self) -> CardanoImmutableDigester {
+        CardanoImmutableDigester::new(self.provider(), discard_logger())
+    }
+}
+
+fn hist_case(c: &HistCase) -> Report {
+    let mut rep = Report::new();
+    let scratch = Scratch::new("c12h");
+    let rt = new_runtime();
+    let n = c.db.trios.len();
+    let final_beacon = c.db.first + pick_index(c.final_beacon, n) as u64;
+    db_labels(&mut rep, &c.db);
+    rep.label(if final_beacon == c.db.last() { "beacon:last" } else { "beacon:inner" });
+
+    let mut finals: Vec<(Vec<(u64, String, String)>, Outcome)> = vec![];
+    let mut classes: Vec<(String, String)> = vec![];
+    let mut all_hist: BTreeSet<String> = BTreeSet::new();
+    let mut all_extra: BTreeSet<&'static str> = BTreeSet::new();
+
+    for (mi, mat) in c.mats.iter().enumerate() {
+        let root = scratch.path().join(format!("m{mi}"));
+        std::fs::create_dir_all(&root).unwrap();
+        let mut disk = Disk::new(&root, &mat.pass);
+        let cache = CacheCtx::new(&mat.cache, &root);
+        let mut hist: BTreeSet<String> = BTreeSet::new();
+        match &mat.cache {
+            CacheSpec::None => {
+                hist.insert("no-cache".into());
+            }
+            CacheSpec::Memory => {
+                hist.insert("memory".into());
+            }
+            CacheSpec::Json { initial } => {
+                hist.insert(["json", "json-empty-object", "json-corrupt"][(*initial % 3) as usize].into());
+            }
+        }
+
+        // canonical files of this materialisation (files beyond the final beacon may be edited per materialisation)
+        let mut canon: Vec<(u64, String, Option<Vec<u8>>)> = vec![];
+        for (i, t) in c.db.trios.iter().enumerate() {
+            let num = c.db.first + i as u64;
+            for (e, cont) in t.iter().enumerate() {
+                canon.push((num, canonical_name(num, e), Some(cont.bytes())));
+            }
+        }
+        let beyond_idx: Vec<usize> = canon.iter().enumerate().filter(|(_, f)| f.0 > final_beacon).map(|(i, _)| i).collect();
+        let mut layout_bits: BTreeSet<String> = BTreeSet::new();
+        for ed in &mat.beyond_edits {
+            if beyond_idx.is_empty() {
+                break;
+            }
+            match ed {
+                BeyondEdit::Delete { file } => {
+                    canon[beyond_idx[pick_index(*file, beyond_idx.len())]].2 = None;
+                    layout_bits.insert("beyond-beacon-deleted".into());
+                }
+                BeyondEdit::Rewrite { file, content } => {
+                    canon[beyond_idx[pick_index(*file, beyond_idx.len())]].2 = Some(content.bytes());
+                    layout_bits.insert("beyond-beacon-rewritten".into());
+                }
+            }
+        }
+        // the file carrying a visible trio's own number must exist for every history beacon: keep deletions but note
+        // that the reference handles every resulting directory (NotEnough when the beacon number is absent).
+
+        let mut visible = 1 + pick_index(mat.initial_visible, n);
+        let mut written_trios = 0usize;
+        let write_trios = |disk: &mut Disk, from: usize, to: usize, extras: bool| {
+            let mut files: Vec<(String, Vec<u8>)> = canon
+                .iter()
+                .filter(|f| {
+                    let idx = (f.0 - c.db.first) as usize;
+                    idx >= from && idx < to
+                })
+                .filter_map(|f| f.2.clone().map(|b| (f.1.clone(), b)))
+                .collect();
+            if extras {
+                for ex in &mat.extras {
+                    for (name, b) in extra_files(ex, &c.db) {
+                        if !files.iter().any(|(n, _)| *n == name) {
+                            files.push((name, b));
+                        }
+                    }
+                }
+            }
+            apply_order(&mut files, &mat.order);
+            for (name, b) in files {
+                disk.write(&name, b);
+            }
+        };
+        for ex in &mat.extras {
+            disk.write_outside(ex, &c.db);
+            layout_bits.insert(extra_class(ex).into());
+            all_extra.insert(extra_class(ex));
+        }
+        write_trios(&mut disk, 0, visible, true);
+        written_trios = written_trios.max(visible);
+
+        // ---- history
+        let mut computed_before = false;
+        for op in &mat.ops {
+            match op {
+                PreOp::Compute { grow, beacon, beyond } => {
+                    let want = 1 + pick_index(*grow, n);
+                    if want > visible {
+                        write_trios(&mut disk, written_trios, want, false);
+                        written_trios = want;
+                        visible = want;
+                        if computed_before {
+                            hist.insert("grown-between-runs".into());
+                        }
+                    }
+                    let b = if *beyond {
+                        c.db.first + visible as u64
+                    } else {
+                        c.db.first + pick_index(*beacon, visible) as u64
+                    };
+                    let got = cut_root(&rt, &cache.digester(), &disk.pass_dir, b);
+                    let want_out = ref_root(&disk.model, b);
+                    if matches!(mat.cache, CacheSpec::None) {
+                        // nothing is left behind by a cache-less run
+                    } else if matches!(got, Outcome::Root(_)) {
+                        hist.insert(
+                            match b.cmp(&final_beacon) {
+                                std::cmp::Ordering::Equal => "warm-same",
+                                std::cmp::Ordering::Greater => "warm-longer",
+                                std::cmp::Ordering::Less => "warm-shorter",
+                            }
+                            .into(),
+                        );
+                    }
+                    if matches!(want_out, Outcome::NotEnough) {
+                        rep.label("history:not-enough-immutable");
+                    }
+                    computed_before = true;
+                    if got != want_out {
+                        rep.violation(
+                            "history-root-differs-from-reference",
+                            format!("materialisation {mi}, history compute(beacon={b}): digester {got:?}, reference {want_out:?}"),
+                        );
+                        return rep;
+                    }
+                }
+                PreOp::Fill { mask } => {
+                    if let Some(p) = cache.provider() {
+                        let entries: Vec<(String, String)> = ref_entries(&disk.model, |_| true)
+                            .into_iter()
+                            .enumerate()
+                            .filter(|(i, _)| mask & (1u64 << (i % 64)) != 0)
+                            .map(|(_, e)| (e.1, e.2))
+                            .collect();
+                        if !entries.is_empty() && rt.block_on(p.store(entries)).is_ok() {
+                            hist.insert("partially-filled".into());
+                        }
+                    }
+                }
+                PreOp::StaleNames { n: k } => {
+                    if let Some(p) = cache.provider() {
+                        let entries: Vec<(String, String)> = (0..*k as u64)
+                            .map(|i| {
+                                (canonical_name(c.db.last() + 40 + i, (i % 3) as usize), sha256_hex(&i.to_le_bytes()))
+                            })
+                            .collect();
+                        if rt.block_on(p.store(entries)).is_ok() {
+                            hist.insert("entries-for-vanished-names".into());
+                        }
+                    }
+                }
+            }
+        }
+        if hist.len() == 1 && !matches!(mat.cache, CacheSpec::None) {
+            hist.insert("cold".into());
+        }
+        // ---- everything becomes visible, final computation
+        if written_trios < n {
+            write_trios(&mut disk, written_trios, n, false);
+            if computed_before {
+                hist.insert("grown-between-runs".into());
+            }
+        }
+        let digester = Arc::new(cache.digester());
+        let got = cut_root(&rt, &digester, &disk.pass_dir, final_beacon);
+        let want = ref_root(&disk.model, final_beacon);
+        if got != want {
+            rep.violation(
+                "root-differs-from-reference",
+                format!(
+                    "materialisation {mi} (cache history {hist:?}), beacon {final_beacon}: digester {got:?}, reference {want:?}"
+                ),
+            );
+            return rep;
+        }
+        // the digest list the aggregator publishes comes from compute_digests_for_range over the same cache
+        let range = c.db.first..=final_beacon;
+        match rt.block_on(digester.compute_digests_for_range(&disk.pass_dir, &range)) {
+            Ok(d) => {
+                let got_list: Vec<(u64, String, String)> =
+                    d.entries.iter().map(|(f, h)| (f.number, f.filename.clone(), h.clone())).collect();
+                let want_list = ref_entries(&disk.model, |x| range.contains(&x));
+                if got_list != want_list {
+                    rep.violation(
+                        "range-digests-differ-from-reference",
+                        format!("materialisation {mi} (cache history {hist:?}), range {range:?}: digester {got_list:?}, reference {want_list:?}"),
+                    );
+                    return rep;
+                }
+            }
+            Err(e) => {
+                rep.violation("range-digests-error", format!("materialisation {mi}: compute_digests_for_range failed: {e:?}"));
+                return rep;
+            }
+        }
+        // observed through the signable builder (what signers and the aggregator sign)
+        if mi == 0 {
+            let sb = CardanoDatabaseSignableBuilder::new(digester.clone(), &disk.pass_dir, discard_logger());
+            let msg = rt.block_on(sb.compute_protocol_message(CardanoDbBeacon::new(1, final_beacon)));
+            let part = msg.as_ref().ok().and_then(|m| m.get_message_part(&ProtocolMessagePartKey::CardanoDatabaseMerkleRoot).cloned());
+            let want_part = match &want {
+                Outcome::Root(r) => Some(r.clone()),
+                _ => None,
+            };
+            if part != want_part {
+                rep.violation(
+                    "protocol-message-root-differs",
+                    format!("signable builder root part {part:?} (result ok={}), reference {want_part:?}", msg.is_ok()),
+                );
+                return rep;
+            }
+            rep.label("observed:protocol-message");
+        }
+        for h in &hist {
+            rep.label(format!("history:{h}"));
+            all_hist.insert(h.clone());
+        }
+        rep.label(format!("order:{}", order_class(&mat.order)));
+        rep.label(format!("pass:{}", pass_class(&mat.pass)));
+        for l in &layout_bits {
+            rep.label(format!("layout:{l}"));
+        }
+        let layout_class = format!("{}|{}|{:?}", order_class(&mat.order), pass_class(&mat.pass), layout_bits);
+        let hist_class = format!("{hist:?}");
+        classes.push((layout_class, hist_class));
+        finals.push((ref_entries(&disk.model, |x| x <= final_beacon), got));
+    }
+
+    // equal covered content => equal result, whatever the layout and the history
+    for i in 0..finals.len() {
+        for j in i + 1..finals.len() {
+            if finals[i].0 == finals[j].0 {
+                rep.label("pair:equal-covered-content");
+                if finals[i].1 != finals[j].1 {
+                    rep.violation(
+                        "materialisations-disagree",
+                        format!("materialisations {i} and {j} hold the same covered files but give {:?} vs {:?}", finals[i].1, finals[j].1),
+                    );
+                    return rep;
+                }
+            } else {
+                rep.label("pair:covered-content-differs(beacon-file-missing)");
+            }
+        }
+    }
+    let nontrivial = (0..classes.len())
+        .any(|i| (i + 1..classes.len()).any(|j| classes[i].0 != classes[j].0 && classes[i].1 != classes[j].1));
+    if nontrivial {
+        rep.label("nontrivial:layout-and-history-differ");
+        rep.nontrivial(format!("hist={all_hist:?} extras={all_extra:?}"));
+    }
+    rep
+}
+
+// ---------------------------------------------------------------------------------------------------------------
+// section 2: single perturbations without cache
+// ---------------------------------------------------------------------------------------------------------------
+
+fn covered_map(model: &Model, beacon: u64) -> BTreeMap<String, Vec<u8>> {
+    model
+        .iter()
+        .filter(|(n, _)| parse_immutable_name(n).is_some_and(|(x, _)| x <= beacon))
+        .map(|(n, b)| (n.clone(), b.clone()))
+        .collect()
+}
+
+fn pert_case(c: &PertCase) -> Report {
+    let mut rep = Report::new();
+    let scratch = Scratch::new("c12p");
+    let rt = new_runtime();
+    let n = c.db.trios.len();
+    let beacon = c.db.first + pick_index(c.beacon, n) as u64;
+    db_labels(&mut rep, &c.db);
+    let mut disk = Disk::new(scratch.path(), &c.pass);
+    let mut files: Vec<(String, Vec<u8>)> = c.db.files().into_iter().map(|(n, c)| (n, c.bytes())).collect();
+    for ex in &c.extras {
+        disk.write_outside(ex, &c.db);
+        for (name, b) in extra_files(ex, &c.db) {
+            if !files.iter().any(|(n, _)| *n == name) {
+                files.push((name, b));
+            }
+        }
+    }
+    apply_order(&mut files, &c.order);
+    for (name, b) in files {
+        disk.write(&name, b);
+    }
+    let digester = CardanoImmutableDigester::new(None, discard_logger());
+    let before_map = covered_map(&disk.model, beacon);
+    let before = cut_root(&rt, &digester, &disk.pass_dir, beacon);
+    let before_ref = ref_root(&disk.model, beacon);
+    if before != before_ref {
+        rep.violation(
+            "root-differs-from-reference",
+            format!("unperturbed database, beacon {beacon}: digester {before:?}, reference {before_ref:?}"),
+        );
+        return rep;
+    }
+
+    let covered: Vec<String> = before_map.keys().cloned().collect();
+    let uncovered: Vec<String> = disk.model.keys().filter(|k| !before_map.contains_key(*k)).cloned().collect();
+    let pick = |raw: u16, v: &Vec<String>| v[pick_index(raw, v.len())].clone();
+    let class: String;
+    match &c.pert {
+        Pert::Flip { file, pos, xor } => {
+            let name = pick(*file, &covered);
+            let mut b = disk.model[&name].clone();
+            if b.is_empty() {
+                b.push(*xor);
+                class = "append(empty-file)".into();
+            } else {
+                let p = if *pos == u16::MAX { b.len() - 1 } else { pick_index(*pos, b.len()) };
+                b[p] ^= (*xor).max(1);
+                class = if p + 1 == b.len() { "flip-last-byte".into() } else { "flip".into() };
+                if p >= 8192 {
+                    rep.label("pert:flip-beyond-8KiB");
+                }
+            }
+            disk.write(&name, b);
+        }
+        Pert::Truncate { file, newlen } => {
+            let name = pick(*file, &covered);
+            let mut b = disk.model[&name].clone();
+            if b.is_empty() {
+                b.push(0);
+                class = "append(empty-file)".into();
+            } else {
+                let l = if *newlen == u16::MAX { b.len() - 1 } else { pick_index(*newlen, b.len()) };
+                b.truncate(l);
+                class = if l == 0 { "truncate-to-empty".into() } else { "truncate".into() };
+            }
+            disk.write(&name, b);
+        }
+        Pert::Append { file, extra } => {
+            let name = pick(*file, &covered);
+            let mut b = disk.model[&name].clone();
+            b.extend_from_slice(extra);
+            disk.write(&name, b);
+            class = "append".into();
+        }
+        Pert::Delete { file } => {
+            let name = pick(*file, &covered);
+            disk.remove(&name);
+            class = "delete".into();
+        }
+        Pert::RenameOut { file, kind } => {
+            let name = pick(*file, &covered);
+            let to = if kind % 2 == 0 {
+                format!("{name}.bak")
+            } else {
+                let (_, ext) = parse_immutable_name(&name).unwrap();
+                // a number beyond everything on disk
+                format!("{:05}.{ext}", c.db.last() + 20)
+            };
+            disk.rename(&name, &to);
+            class = if kind % 2 == 0 { "rename-to-non-immutable".into() } else { "rename-beyond-beacon".into() };
+        }
+        Pert::RenameOver { file, onto } => {
+            let a = pick(*file, &covered);
+            let b = pick(*onto, &covered);
+            if a == b {
+                disk.remove(&a);
+                class = "delete".into();
+            } else {
+                disk.rename(&a, &b);
+                class = "rename-over-covered".into();
+            }
+        }
+        Pert::SwapContents { a, b } => {
+            let na = pick(*a, &covered);
+            let nb = pick(*b, &covered);
+            let (ca, cb) = (disk.model[&na].clone(), disk.model[&nb].clone());
+            class = if ca == cb { "swap-equal-contents(no-op)".into() } else { "swap-contents".into() };
+            disk.write(&na, cb);
+            disk.write(&nb, ca);
+        }
+        Pert::ReplaceFresh { file, content } => {
+            let name = pick(*file, &covered);
+            let fresh = content.bytes();
+            class = if fresh == disk.model[&name] { "rewrite-same(no-op)".into() } else { "replace".into() };
+            disk.write(&name, fresh);
+        }
+        Pert::DeleteBeaconTrio => {
+            for name in covered.iter().filter(|n| parse_immutable_name(n).unwrap().0 == beacon) {
+                disk.remove(name);
+            }
+            class = "delete-beacon-trio".into();
+        }
+        Pert::UncoveredFlip { file, pos, xor } => {
+            if uncovered.is_empty() {
+                disk.write(&canonical_name(c.db.last() + 3, 0), vec![*xor]);
+                class = "uncovered-add".into();
+            } else {
+                let name = pick(*file, &uncovered);
+                let mut b = disk.model[&name].clone();
+                if b.is_empty() {
+                    b.push(*xor);
+                } else {
+                    let p = pick_index(*pos, b.len());
+                    b[p] ^= (*xor).max(1);
+                }
+                disk.write(&name, b);
+                class = "uncovered-modify".into();
+            }
+        }
+        Pert::UncoveredDelete { file } => {
+            if uncovered.is_empty() {
+                disk.write("notes.txt", vec![1, 2, 3]);
+                class = "uncovered-add".into();
+            } else {
+                let name = pick(*file, &uncovered);
+                disk.remove(&name);
+                class = "uncovered-delete".into();
+            }
+        }
+        Pert::UncoveredAdd { extra } => {
+            disk.write_outside(extra, &c.db);
+            for (name, b) in extra_files(extra, &c.db) {
+                if !disk.model.contains_key(&name) {
+                    disk.write(&name, b);
+                }
+            }
+            class = format!("uncovered-add({})", extra_class(extra));
+        }
+    }
+    rep.label(format!("pert:{class}"));
+    let after_map = covered_map(&disk.model, beacon);
+    let changed = after_map != before_map;
+    let after = cut_root(&rt, &digester, &disk.pass_dir, beacon);
+    let after_ref = ref_root(&disk.model, beacon);
+    if matches!(after_ref, Outcome::NotEnough) {
+        rep.label("after:not-enough-immutable");
+    }
+    if after != after_ref {
+        rep.violation(
+            "perturbed-root-differs-from-reference",
+            format!("after {:?} (beacon {beacon}): digester {after:?}, reference {after_ref:?}", c.pert),
+        );
+        return rep;
+    }
+    if let Outcome::Other(e) = &after {
+        rep.violation("unexpected-digester-error", format!("after {:?}: {e}", c.pert));
+        return rep;
+    }
+    if changed && after == before {
+        rep.violation(
+            "covered-change-not-reflected",
+            format!("{:?} changed the covered files (beacon {beacon}) but the result stayed {after:?}", c.pert),
+        );
+        return rep;
+    }
+    if !changed && after != before {
+        rep.violation(
+            "uncovered-change-moved-root",
+            format!("{:?} left the covered files (beacon {beacon}) unchanged but the result moved {before:?} -> {after:?}", c.pert),
+        );
+        return rep;
+    }
+    rep.label(if changed { "covered-content:changed" } else { "covered-content:unchanged" });
+    rep.nontrivial(format!(
+        "{class}|{}|{}|cross={}",
+        order_class(&c.order),
+        pass_class(&c.pass),
+        c.db.first < 100_000 && c.db.last() >= 100_000
+    ));
+    rep
+}
 
 pub fn run(args: &Args) -> i32 {
-    let check = Check::new("C12", "exploration", args);
-    check.inconclusive("check not implemented yet".into());
+    let mut check = Check::new("C12", "exploration", args);
+    check
+        .rule(
+            "layouts-caches: 2-3 materialisations of one canonical database; non-trivial = some pair differs in layout class \
+             (creation order, directory handed over, extra-file classes) AND in cache-history class; distinct by (history \
+             classes, extra classes). perturbations: one covered/uncovered perturbation of a cache-less database; distinct by \
+             (perturbation class, order, directory handed over, crossing of 99999/100000)",
+        )
+        .assume("the directory is a Cardano node database: exactly one directory named `immutable` in the walked tree; every *.chunk/*.primary/*.secondary directly inside it has a decimal stem (5-digit zero padded as cardano-node writes them)")
+        .assume("files do not change while or after they are digested (a stale cache after a file changed is not covered by the statement)")
+        .assume("SHA-256 / Blake2s-256 implementations (RustCrypto) and the MMR definition (perfect-tree peaks, bagging right-to-left) are the trusted base of the reference; the reference is pinned by the repository's golden root")
+        .require_label("nontrivial:layout-and-history-differ")
+        .require_label("pair:equal-covered-content")
+        .require_label("history:warm-same")
+        .require_label("history:warm-longer")
+        .require_label("history:warm-shorter")
+        .require_label("history:partially-filled")
+        .require_label("history:entries-for-vanished-names")
+        .require_label("history:grown-between-runs")
+        .require_label("history:cold")
+        .require_label("history:no-cache")
+        .require_label("history:json-corrupt")
+        .require_label("layout:beyond-last")
+        .require_label("layout:non-immutable-name")
+        .require_label("layout:beside")
+        .require_label("layout:subdir-lookalike")
+        .require_label("layout:beyond-beacon-rewritten")
+        .require_label("db:crosses-100000")
+        .require_label("db:empty-file")
+        .require_label("db:file>64KiB")
+        .require_label("pert:flip")
+        .require_label("pert:flip-last-byte")
+        .require_label("pert:truncate")
+        .require_label("pert:delete")
+        .require_label("pert:rename-to-non-immutable")
+        .require_label("pert:rename-beyond-beacon")
+        .require_label("pert:swap-contents")
+        .require_label("pert:uncovered-modify")
+        .require_label("after:not-enough-immutable")
+        .require_label("covered-content:unchanged");
+    if let Err(e) = mmr_self_test() {
+        check.inconclusive(e);
+        return check.finish();
+    }
+    let t = check.tier;
+    check.section("layouts-caches", hist_strategy, t.pick(3000, 90_000), hist_case);
+    check.section("perturbations", pert_strategy, t.pick(8000, 240_000), pert_case);
     check.finish()
 }
